@@ -245,13 +245,12 @@ theorem outFrom_append (t : GTW α) (xs ys : List (GOp α)) :
 theorem flatten_flushCalls (b : List α) : (if b.isEmpty then [] else [b] : List (List α)).flatten = b := by
   cases b <;> simp
 
+/-- `Write` flushes the previous buffer and buffers the (possibly left-stripped) new text -/
 theorem outFrom_write (t : GTW α) (b : List α) (ops : List (GOp α)) :
     GTW.outFrom sp t (.write b :: ops) =
-      if t.trim then GTW.outFrom sp { buf := t.buf ++ lstrip sp b, trim := false } ops
-      else t.buf ++ GTW.outFrom sp { buf := b, trim := false } ops := by
+      t.buf ++ GTW.outFrom sp { buf := if t.trim then lstrip sp b else b, trim := false } ops := by
   rw [outFrom_cons]
-  cases h : t.trim <;> simp [GTW.step, h]
-  split <;> simp_all
+  simp only [GTW.step, flatten_flushCalls]
 
 theorem outFrom_trimLeft (t : GTW α) (ops : List (GOp α)) :
     GTW.outFrom sp t (.trimLeft :: ops) = rstrip sp t.buf ++ GTW.outFrom sp { t with buf := [] } ops := by
@@ -278,13 +277,7 @@ theorem outFrom_commit (ops : List (GOp α)) : ∀ (c b : List α) (f : Bool),
     cases op with
     | write u =>
       rw [outFrom_write, outFrom_write]
-      cases f
-      · simp
-      · simp only [if_true, List.append_assoc]
-        apply ih
-        rcases h with h | h
-        · exact .inl h
-        · right; rw [hasInk_append, h]; rfl
+      simp only [List.append_assoc]
     | trimLeft =>
       rw [outFrom_trimLeft, outFrom_trimLeft]
       simp only
@@ -345,14 +338,10 @@ theorem outFrom_wsDeletion (ops : List (GOp α)) : ∀ (t : GTW α) (pre : List 
     | write u =>
       rw [outFrom_write]
       simp only [writes]
-      rw [← List.append_assoc]
-      cases hf : t.trim
-      · simp only [Bool.false_eq_true, if_false]
-        have := ih { buf := u, trim := false } u (WsDeletion.refl sp u)
-        rw [List.append_assoc]
-        exact h.append sp this
-      · simp only [if_true]
-        exact ih _ (pre ++ u) (h.append sp (wsDeletion_lstrip sp u))
+      refine h.append sp (ih _ u ?_)
+      cases t.trim
+      · exact WsDeletion.refl sp u
+      · exact wsDeletion_lstrip sp u
     | trimLeft =>
       rw [outFrom_trimLeft]
       simp only [writes]
@@ -383,57 +372,61 @@ theorem out_append (xs ys : List (GOp α)) :
 
 /-! ## a trim operation next to a write (per state) -/
 
-theorem outFrom_write_trimLeft (t : GTW α) (u : List α) (post : List (GOp α))
-    (h : hasInk sp u = true ∨ t.trim = false) :
+/-- a `TrimLeft` directly after a write acts as the write of the right-stripped text — in EVERY
+    state, for EVERY text (the previous buffer was flushed by the write, so the `TrimLeft` sees
+    this text only) -/
+theorem outFrom_write_trimLeft (t : GTW α) (u : List α) (post : List (GOp α)) :
     GTW.outFrom sp t (.write u :: .trimLeft :: post) = GTW.outFrom sp t (.write (rstrip sp u) :: post) := by
-  rw [outFrom_write, outFrom_write, outFrom_trimLeft, outFrom_trimLeft]
-  cases hf : t.trim
-  · simp only [Bool.false_eq_true, if_false]
-    have := outFrom_commit sp post (rstrip sp u) [] false (.inl (rstrip_idem sp u))
+  rw [outFrom_write, outFrom_write, outFrom_trimLeft]
+  congr 1
+  have key : ∀ v : List α, rstrip sp v ++ GTW.outFrom sp { buf := [], trim := false } post =
+      GTW.outFrom sp { buf := rstrip sp v, trim := false } post := by
+    intro v
+    have := outFrom_commit sp post (rstrip sp v) [] false (.inl (rstrip_idem sp v))
     rw [List.append_nil] at this
-    rw [this]
-  · have hu : hasInk sp u = true := by
-      rcases h with h | h
-      · exact h
-      · rw [hf] at h; cases h
-    have hl : hasInk sp (lstrip sp u) = true := by rw [hasInk_lstrip]; exact hu
-    simp only [if_true]
-    rw [rstrip_append sp t.buf _ (.inr hl), lstrip_rstrip_comm]
-    have := outFrom_commit sp post (t.buf ++ rstrip sp (lstrip sp u)) [] false
-      (.inl (rstrip_stable_append_rstrip sp t.buf _ hl))
-    rw [List.append_nil] at this
-    rw [this]
+    exact this.symm
+  cases t.trim
+  · exact key u
+  · simp only [if_true]
+    rw [lstrip_rstrip_comm]
+    exact key (lstrip sp u)
 
-theorem outFrom_write_trimLeft_ws (t : GTW α) (u : List α) (post : List (GOp α))
-    (hu : hasInk sp u = false) (hf : t.trim = true) :
-    GTW.outFrom sp t (.write u :: .trimLeft :: post) = GTW.outFrom sp t (.trimLeft :: .write [] :: post) := by
-  simp [outFrom_write, outFrom_trimLeft, hf, lstrip_of_no_ink sp u hu, lstrip_nil]
-
-theorem outFrom_trimRight_write (t : GTW α) (u : List α) (post : List (GOp α))
-    (h : hasInk sp u = true ∨ t.trim = true) :
+/-- a `TrimRight` directly before a write acts as the write of the left-stripped text — in EVERY
+    state, for EVERY text (a write always consumes the flag) -/
+theorem outFrom_trimRight_write (t : GTW α) (u : List α) (post : List (GOp α)) :
     GTW.outFrom sp t (.trimRight :: .write u :: post) = GTW.outFrom sp t (.write (lstrip sp u) :: post) := by
   rw [outFrom_trimRight, outFrom_write, outFrom_write]
-  cases hf : t.trim
-  · have hu : hasInk sp u = true := by
-      rcases h with h | h
-      · exact h
-      · rw [hf] at h; cases h
-    simp only [if_true, Bool.false_eq_true, if_false]
-    exact outFrom_commit sp post t.buf (lstrip sp u) false (.inr (by rw [hasInk_lstrip]; exact hu))
-  · simp [lstrip_idem]
+  cases t.trim <;> simp [lstrip_idem]
 
-theorem outFrom_trimRight_write_ws (t : GTW α) (u : List α) (post : List (GOp α))
-    (hu : hasInk sp u = false) :
-    GTW.outFrom sp t (.trimRight :: .write u :: post) = GTW.outFrom sp t (.trimRight :: .write [] :: post) := by
-  simp [outFrom_write, outFrom_trimRight, lstrip_of_no_ink sp u hu, lstrip_nil]
+/-- a write is a barrier: what was buffered before it is output as it is, whatever follows -/
+theorem outFrom_write_barrier (t : GTW α) (u : List α) (rest : List (GOp α)) :
+    GTW.outFrom sp t (.write u :: rest) =
+      t.buf ++ GTW.outFrom sp { buf := [], trim := t.trim } (.write u :: rest) := by
+  rw [outFrom_write, outFrom_write]; rfl
 
-theorem outFrom_trimRight_empty_write (t : GTW α) (post : List (GOp α)) (hf : t.trim = false) :
-    GTW.outFrom sp t (.trimRight :: .write [] :: post) = GTW.outFrom sp t post := by
-  rw [outFrom_trimRight, outFrom_write]
+/-- so is a `TrimRight` followed by a write -/
+theorem outFrom_trimRight_write_barrier (t : GTW α) (u : List α) (rest : List (GOp α)) :
+    GTW.outFrom sp t (.trimRight :: .write u :: rest) =
+      t.buf ++ GTW.outFrom sp { buf := [], trim := t.trim } (.trimRight :: .write u :: rest) := by
+  rw [outFrom_trimRight, outFrom_trimRight, outFrom_write, outFrom_write]; rfl
+
+/-- an empty write flushes and clears the flag -/
+theorem outFrom_write_nil (t : GTW α) (post : List (GOp α)) :
+    GTW.outFrom sp t (.write [] :: post) = t.buf ++ GTW.outFrom sp { buf := [], trim := false } post := by
+  rw [outFrom_write]; cases t.trim <;> rfl
+
+/-- with no flag pending an empty write is a `Flush` -/
+theorem outFrom_write_nil_noflag (t : GTW α) (post : List (GOp α)) (hf : t.trim = false) :
+    GTW.outFrom sp t (.write [] :: post) = GTW.outFrom sp t (.flush :: post) := by
+  rw [outFrom_write_nil, outFrom_flush]
   cases t with | mk buf trim =>
   simp only at hf
   subst hf
-  simp [lstrip_nil]
+  rfl
+
+theorem outFrom_trimRight_empty_write (t : GTW α) (post : List (GOp α)) (hf : t.trim = false) :
+    GTW.outFrom sp t (.trimRight :: .write [] :: post) = GTW.outFrom sp t (.flush :: post) := by
+  rw [outFrom_trimRight_write, lstrip_nil, outFrom_write_nil_noflag sp t post hf]
 
 theorem outFrom_trimRight_trimLeft (t : GTW α) (post : List (GOp α)) :
     GTW.outFrom sp t (.trimRight :: .trimLeft :: post) = GTW.outFrom sp t (.trimLeft :: .trimRight :: post) := by
@@ -442,5 +435,40 @@ theorem outFrom_trimRight_trimLeft (t : GTW α) (post : List (GOp α)) :
 theorem outFrom_trimRight_flush (t : GTW α) (post : List (GOp α)) :
     GTW.outFrom sp t (.trimRight :: .flush :: post) = GTW.outFrom sp t (.flush :: .trimRight :: post) := by
   rw [outFrom_trimRight, outFrom_flush, outFrom_flush, outFrom_trimRight]
+
+/-! ## a write commits everything before it (from the initial state) -/
+
+/-- the state after a write: the buffer holds this write only, the flag is clear -/
+theorem run_snoc_write (t : GTW α) (pre : List (GOp α)) (b : List α) :
+    (GTW.run sp t (pre ++ [.write b])).1 =
+      { buf := if (GTW.run sp t pre).1.trim then lstrip sp b else b, trim := false } := by
+  rw [run_append]; rfl
+
+theorem out_snoc_write (pre : List (GOp α)) (a : List α) :
+    out sp (pre ++ [.write a]) =
+      (GTW.run sp {} pre).2.flatten ++ ((GTW.run sp {} pre).1.buf ++
+        if (GTW.run sp {} pre).1.trim then lstrip sp a else a) := by
+  rw [out_append, outFrom_write, outFrom_nil]
+
+/-- the output splits at two consecutive writes: the first part is the complete output of the
+    list that ends with the first write, the second part does not depend on it -/
+theorem out_split_write_write (pre rest : List (GOp α)) (a b : List α) :
+    out sp (pre ++ .write a :: .write b :: rest) = out sp (pre ++ [.write a]) ++ out sp (.write b :: rest) := by
+  rw [out_snoc_write, out_append, outFrom_write, outFrom_write]
+  simp only [out, outFrom_write, if_false, Bool.false_eq_true, List.nil_append, List.append_assoc]
+
+theorem out_split_write_trimRight_write (pre rest : List (GOp α)) (a b : List α) :
+    out sp (pre ++ .write a :: .trimRight :: .write b :: rest) =
+      out sp (pre ++ [.write a]) ++ out sp (.trimRight :: .write b :: rest) := by
+  rw [out_snoc_write, out_append, outFrom_write, outFrom_trimRight, outFrom_write]
+  simp only [out, outFrom_write, outFrom_trimRight, if_true, List.nil_append, List.append_assoc]
+
+theorem out_write_trimLeft (b : List α) (post : List (GOp α)) :
+    out sp (.write b :: .trimLeft :: post) = rstrip sp b ++ out sp post := by
+  simp only [out, outFrom_write, outFrom_trimLeft, if_false, Bool.false_eq_true, List.nil_append]
+
+theorem out_trimRight_write_trimLeft (b : List α) (post : List (GOp α)) :
+    out sp (.trimRight :: .write b :: .trimLeft :: post) = rstrip sp (lstrip sp b) ++ out sp post := by
+  simp only [out, outFrom_write, outFrom_trimRight, outFrom_trimLeft, if_true, List.nil_append]
 
 end Gen
